@@ -243,6 +243,7 @@ def machine(tier):
 # ------------------------------------------------------------------ pipeline level
 STATS = {}
 _wrapped = False
+HBOND_SCAN_CUTOFF = 4.3  # distance filter of the hydrogen-bond scan in HydrogenRoutines.optimize_hydrogens
 
 
 def _keyf(size, v):
@@ -274,6 +275,7 @@ def install_pipeline_wrapper():
             return out
         st_["audited"] = st_.get("audited", 0) + 1
         size = self.cellsize
+        need = max(size, getattr(self, "_vf_need", 0)) if getattr(self, "_vf_need", 0) > size else size
         structure = [a for r in bio.residues for a in r.atoms]
         in_structure = {id(a) for a in structure}
         # ghosts: returned atoms that are no longer part of the structure
@@ -286,10 +288,12 @@ def install_pipeline_wrapper():
         if len(P):
             d = np.linalg.norm(P - np.array(atom.coords), axis=1)
             for a, dd in zip(structure, d):
-                if a is atom or dd >= size or a.name.startswith("LP"):
+                if a is atom or dd >= need or a.name.startswith("LP"):
                     continue
                 if id(a) not in got:
                     kind = "unregistered" if a.cell is None else ("stale" if a.cell != tuple(_keyf(size, v) for v in a.coords) else "missed")
+                    if kind == "missed" and dd >= size:
+                        kind = "cutoff-exceeds-cell-size"
                     st_.setdefault("missing:" + kind, []).append(
                         f"{a.name} of {a.residue} is {dd:.2f} A from {atom.name} of {atom.residue} but not returned ({kind})")
                     break
@@ -297,6 +301,21 @@ def install_pipeline_wrapper():
 
     C.Cells.assign_cells = assign
     C.Cells.get_near_cells = query
+    # the hydrogen-bond scan filters neighbours at 4.3 A: the cell map it builds must cover that range
+    from pdb2pqr import hydrogens as H
+
+    for meth in ("initialize_full_optimization", "initialize_wat_optimization"):
+        orig = getattr(H.HydrogenRoutines, meth)
+
+        def wrapper(self, _orig=orig):
+            out = _orig(self)
+            try:
+                self.debumper.cells._vf_need = HBOND_SCAN_CUTOFF
+            except Exception:  # noqa: BLE001
+                pass
+            return out
+
+        setattr(H.HydrogenRoutines, meth, wrapper)
     _wrapped = True
 
 
